@@ -152,11 +152,28 @@ CutOK(s, n, w) ==
       [] OTHER        -> w \in {"before", "inlen", "afterlen"} \cup (IF HasChild(s, n) THEN {} ELSE {"mid", "endm1"})
 PertOK(n) == n.k \in {"vec", "ext", "cnt", "hdr"}
 
+\* Size classes: the content of a prefixed (or unprefixed) node is made exactly this long, so that
+\* every byte of every length field -- the node's own, its ancestors', the handshake header's --
+\* is driven across its 8-bit carries: just below 256, 255, just above, and the same at 2^16.
+SizeClasses == {"c250", "c255", "c256", "c65530", "c65535", "c65536"}
+ClassMax(c) == CASE c = "c250" -> 254 [] c = "c255" -> 255 [] c = "c256" -> 261
+                 [] c = "c65530" -> 65534 [] c = "c65535" -> 65535 [] c = "c65536" -> 65541
+LenCap(n) == IF n.k \in {"vec", "ext", "cnt"} /\ n.lb = 1 THEN 255
+             ELSE IF n.k \in {"vec", "ext", "cnt"} /\ n.lb = 2 THEN 65535
+             ELSE 16777215
+RECURSIVE AncestorsFit(_, _, _)
+AncestorsFit(s, n, need) == n.par = "" \/ (LET a == s[Index(s, n.par)] IN need <= LenCap(a) /\ AncestorsFit(s, a, need))
+Slack == 600       \* room for everything else in the message
+SizeOK(s, n, c) == /\ n.k \in {"vec", "ext", "rest", "hdr"}
+                   /\ ClassMax(c) <= LenCap(n)
+                   /\ AncestorsFit(s, n, ClassMax(c) + Slack)
+
 Ops(s) ==
       {[k |-> "rt", node |-> "", w |-> "", framed |-> TRUE]}
       \cup {[k |-> "cut", node |-> s[i].id, w |-> w, framed |-> fr] :
               i \in 1..Len(s), w \in Wheres, fr \in BOOLEAN}
       \cup {[k |-> "pert", node |-> s[i].id, w |-> d, framed |-> TRUE] : i \in 1..Len(s), d \in Deltas}
+      \cup {[k |-> "size", node |-> s[i].id, w |-> c, framed |-> TRUE] : i \in 1..Len(s), c \in SizeClasses}
 
 OpOK(s, op) ==
       \/ op.k = "rt"
@@ -164,6 +181,7 @@ OpOK(s, op) ==
                       /\ (op.framed \/ s[1].k = "hdr")          \* without a header framed = raw
                       /\ ~(op.node = "hdr" /\ ~op.framed)        \* a header cut cannot be re-framed: counted once
       \/ op.k = "pert" /\ PertOK(s[Index(s, op.node)])
+      \/ op.k = "size" /\ SizeOK(s, s[Index(s, op.node)], op.w)
 
 \* ------------------------------------------------------------------ the verdict rule (Layer P)
 \* accept : unmarshal must return true and the result must equal the original
@@ -194,7 +212,7 @@ PertExpect(s, op) ==
       IF n.k # "hdr" /\ op.w \in {"plus1", "max"} /\ IsTail(s, n) THEN "reject" ELSE "any"
 
 Expect(s, op) ==
-      IF op.k = "rt" THEN "accept"
+      IF op.k \in {"rt", "size"} THEN "accept"      \* a well-formed message of any size round-trips
       ELSE IF op.k = "cut" THEN CutExpect(s, op) ELSE PertExpect(s, op)
 
 \* ------------------------------------------------------------------ transition system
@@ -222,6 +240,6 @@ ShapeOK == LET s == nodes IN
       /\ Cardinality({i \in 1..Len(s) : IsTail(s, s[i]) /\ ~HasChild(s, s[i]) /\ s[i].k # "hdr"}) <= 1
       /\ (Len(s) > 1 => \E i \in 1..Len(s) : IsTail(s, s[i]) /\ s[i].k # "hdr")
 VerdictOK == done => /\ verdict \in {"accept", "reject", "any"}
-                     /\ (op.k = "rt" <=> verdict = "accept")
+                     /\ (op.k \in {"rt", "size"} <=> verdict = "accept")
                      /\ (op.k = "cut" /\ ~op.framed => verdict = "any")
 =======================================================================
